@@ -1,38 +1,25 @@
-"""Per-property configuration for tools/check."""
+"""Per-property configuration for tools/check: one module per property in tools/propcfg/."""
+import importlib, os, sys, glob
+
+_here = os.path.dirname(os.path.abspath(__file__))
+sys.path.insert(0, _here)
 
 TB_COMMON = [
     "Coq 8.16.1 kernel and its vm_compute evaluator (no native_compute); coqchk in the thorough tier",
-    "tools/gen_tables.py (T-gen): transcribes constants/tables from the Rust source into coq/Gen/Tables.v on every run",
+    "tools/gen_tables.py (T-gen): transcribes constants/tables from the Rust source into coq/Gen/*.v on every run",
     "harness/ (Rust) + tools/check: run the real code built from /repo's working tree with --cfg tera_verif, print cases and implementation results as Gallina terms; coqc evaluates the model on them and reports mismatching indices",
     "hand-written Gallina models (coq/Model) of the anchored Rust functions: tied to the code only by the correspondence run, not by translation",
 ]
 
-HDR = lambda corr: f"From TeraV Require Import Model.Value Corr.{corr}."
 
-P = {
-    "C14": {
-        "bin": "c14",
-        "corr": ["CorrC14"],
-        "families": {
-            "slice": {"header": HDR("CorrC14"), "model_fn": "model_slice", "rule": "F"},
-            "index": {"header": HDR("CorrC14"), "model_fn": "model_index", "rule": "F"},
-            "strops": {"header": HDR("CorrC14"), "model_fn": "model_strop", "rule": "F"},
-        },
-        "rule_text": "cases = (receiver, start, stop, step) / (receiver, index) / string op; distinct by the Gallina term of the case; "
-                     "non-trivial = receiver is a sequence of >= 2 elements and at least one bound is given (slice), an integer index into a "
-                     "non-empty sequence (index), a string with a multi-byte character and >= 2 characters (strops). Exhaustive sub-space: "
-                     "every (absent | small int)^3 on short arrays; the rest random over boundary pools in all four integer representations.",
-        "exhaustive_when": None,
-        "trusted_base": TB_COMMON + [
-            "axioms: none (every C14 theorem is 'Closed under the global context')",
-            "modelled, not verified: Rust's Vec indexing / clamp / saturating_add on i128 (modelled on Z with explicit range tests), "
-            "str::chars / char_indices (strings are lists of scalar values in the model; UTF-8 encoding is below the model)",
-        ],
-        "modelled": ["value/mod.rs resolve_index, get_item (array/string arms), slice, slice_items, len, reverse",
-                     "vm/interpreter.rs Slice/SliceOpt/BinarySubscript/BinarySubscriptOpt operand validation",
-                     "filters.rs truncate; vm/for_loop.rs string iterator and loop.* counters"],
-        "assumptions": ["list lengths below 2^127 (Rust: below 2^63)",
-                        "implementation == model only on the cases enumerated by the harness",
-                        "map receivers of x[i] are checked under C15, not here"],
-    },
-}
+def HDR(corr):
+    return f"From TeraV Require Import Model.Value Corr.{corr}."
+
+
+P = {}
+MANIFEST_TEXT = {}
+for _f in sorted(glob.glob(os.path.join(_here, "propcfg", "C*.py"))):
+    _name = os.path.basename(_f)[:-3]
+    _m = importlib.import_module(f"propcfg.{_name}")
+    P[_name] = _m.CFG
+    MANIFEST_TEXT[_name] = _m.MANIFEST
